@@ -45,6 +45,9 @@ func lookupIntrinsic(fn *ssa.Function) intrinsic {
 
 func reg(name string, h intrinsic) { intrinsics[name] = h }
 
+// deepTier: the run is a thorough-tier run (harnesses widen their bounds)
+var deepTier bool
+
 func i64(v int64) *Term { return mkBV(64, uint64(v)) }
 
 func resetPathState(ex *Exec) {
@@ -134,6 +137,8 @@ func (ex *Exec) harnessCall(fr *frame, fn *ssa.Function, args []Value) Value {
 		return nil
 	case "verifNativeRepeat":
 		return i64(1)
+	case "verifDeep":
+		return mkBool(deepTier)
 	case "verifAdvanceClock":
 		// time.Now is already an arbitrary non-decreasing instant at every call
 		return nil
